@@ -142,6 +142,12 @@ def c02(ck):
              nontrivial=lambda e: e.get("n", 0) >= 31 or e.get("ev") in ("bigseq", "bigflat"))
     if ck.violations:
         return
+    # messages that came out of the decoder (non-minimal length bytes, booleans other than 0/1, ...) encode canonically
+    ck.rule.append("corrupt: re-encodings of messages decoded from non-canonical spellings against EncMsg of their projection")
+    ck.trace("corrupt", "corrupt", ["-n", q(ck, 30, 250)], "TraceCodec", "TraceCodec.cfg", ["InvC02"],
+             nontrivial=lambda e: e.get("ok") and len(e.get("bytes", [])) > 14, key=lambda e: json.dumps(e.get("bytes")))
+    if ck.violations:
+        return
     c02_values(ck)
 
 
